@@ -14,7 +14,7 @@ PID = 'C17'
 CHK = 'Chk_C17'
 IMPORTS = ('Layers', 'Run', 'Xml')
 SHARD = 25
-RULE = ('in-process runs with --xml of 1..6 unittest cases in 1..2 classes whose class names, method names and exception messages '
+RULE = ('runs with --xml (in-process, plus some with two or three layers run in subprocesses through -j N or resumption) of 1..6 unittest cases in 1..2 classes whose class names, method names and exception messages '
         'are drawn from: ASCII, XML specials <&>" and apostrophes, ]]>, C0 controls, NUL, DEL/C1, lone surrogates, U+FFFE/U+FFFF, '
         'astral characters, CR/LF/CRLF, tabs, very long and multi-line strings; outcomes: pass, failure, error, failing/erroring '
         'subtests, unexpected success, expected failure, skip, several events per test; every report file is parsed with expat; '
@@ -75,6 +75,25 @@ def generate(rng, tier, rep):
             tests.append(T)
         opts = ['--xml', 'xmlout'] + (['--repeat', '2'] if rng.random() < 0.1 else [])
         cases.append({'layers': [], 'tests': tests, 'options': opts})
+    # layers run in subprocesses (-j N, or resumed after a layer that cannot be torn down): every process writes its
+    # own report files into the same folder; nothing written by one process may be lost or overwritten by another
+    for k in range({'quick': 12, 'thorough': 150, 'search': 20}[tier]):
+        nl = rng.choice([2, 3])
+        resumed = k % 2 == 0
+        layers = [{'name': ['La', 'Lb', 'Lc'][i], 'bases': [], 'kind': 'instance',
+                   'hooks': {'setUp': ['ok'], 'tearDown': ['notimpl'] if resumed else ['ok']}} for i in range(nl)]
+        tests = []
+        for i in range(nl):
+            for _ in range(rng.randint(1, 3)):
+                T = {'layer': i, 'cls': 'CL%d' % i}
+                r = rng.random()
+                if r < 0.3:
+                    T['body'] = [rng.choice(['fail', 'error']), rand_msg(rng)]
+                elif r < 0.4:
+                    T['subs'] = [['fail', rand_msg(rng)], 'ok']
+                tests.append(T)
+        cases.append({'layers': layers, 'tests': tests, 'options': ['--xml', 'xmlout'] + ([] if resumed else [rng.choice(['-j2', '-j3'])])})
+        rep.count('subprocess_layers=%s' % ('resumed' if resumed else 'parallel'))
     for c in cases:
         rep.count('tests=%d' % len(c['tests']))
         chars = ''.join(str(T.get(k)) for T in c['tests'] for k in ('body', 'setUp', 'tearDown', 'subs'))
